@@ -97,7 +97,10 @@ theorem unlockEv_struct (h : Heap) (i : Nat) : SameStruct h (unlockEv h i).1 := 
 
 theorem shareEv_struct (h : Heap) (i : Nat) : SameStruct h (shareEv h i) := by
   unfold shareEv
-  exact foldl_sameStruct _ (fun acc j => lockEv_struct acc j) _ _
+  exact foldl_sameStruct _ (fun acc j => by
+    unfold shareNode; split
+    · exact propLockF_struct _ _ _ _
+    · exact lockEv_struct acc j) _ _
 
 /-! ### `content` -/
 
